@@ -342,6 +342,10 @@ class World:
 
     def default(self, idx, kw):
         self.obs.append(['default', CURRENT_RUN.get().rid, idx, {progen._key(k): progen.canon(v) for k, v in kw.items()}])
+        cls = self.spec['nodes'][idx].get('dflt_raise')
+        if cls:
+            # a get_default that fails with a user error (T0 is a TypeError, V0 a ValueError)
+            raise progen.EXC[cls](idx, 0, 0)
         return progen.prov(self.spec['nodes'][idx]['name'] + '.default', kw)
 
     # -- driving ---------------------------------------------------------------------------
